@@ -1,5 +1,7 @@
-"""Canary objects for C09 (DESIGN 3.6 `Canary`): value look-alikes whose every *named method invocation* and every
-*double-underscore attribute read* is logged together with who did it.
+"""Canary objects for C09 (DESIGN 3.6 `Canary`): value look-alikes whose every *named method invocation* ('call'), every
+*special method that builtins and operators invoke on them* ('special': __str__, __repr__, __iter__, __len__, __bool__,
+__eq__ .. __ge__, __hash__, __contains__, __format__, __add__ .., __getitem__) and every *double-underscore attribute read*
+('dunder') is logged together with who did it.
 
 * `CStr`, `CInt`, `CList` are str/int/list subclasses (usable wherever the selector interpreter or a helper function
   expects such a value); `CObj` is a plain object with a callable attribute `fn`, a nested `child`, and a method
@@ -145,14 +147,35 @@ def _method(name, base):
 
 
 def _operator(name, base):
+    """Binary / unary operator or indexing: logged as a 'special' event, the result is a canary again."""
     orig = getattr(base, name)
 
     def m(self, *a):
+        if STATE.armed:
+            _log("special", self, name, sys._getframe(1))
         r = orig(self, *a)
         return r if r is NotImplemented else derive(r)
 
     m.__name__ = name
     return m
+
+
+def _special(name, base):
+    """A special method that builtins and operators invoke (__eq__, __hash__, __len__, __contains__, __format__ ...):
+    logged as a 'special' event, the base type's answer is returned unchanged."""
+    orig = getattr(base, name)
+
+    def m(self, *a):
+        if STATE.armed:
+            _log("special", self, name, sys._getframe(1))
+        return orig(self, *a)
+
+    m.__name__ = name
+    return m
+
+
+SPECIALS = ["__eq__", "__ne__", "__lt__", "__le__", "__gt__", "__ge__", "__hash__", "__len__", "__contains__", "__format__", "__bool__",
+            "__int__", "__index__", "__float__"]
 
 
 def _public_methods(base):
@@ -173,18 +196,26 @@ def _fill(ns, base, operators):
     for n in operators:
         if hasattr(base, n):
             ns[n] = _operator(n, base)
+    for n in SPECIALS:
+        if getattr(base, n, None) is not None and n not in ns:
+            ns[n] = _special(n, base)
 
 
 # ---- str ---------------------------------------------------------------------------------------------
 class StrMixin(CanaryBase):
     def __iter__(self):
-        for ch in str.__iter__(self):
-            yield CStr(ch)
+        if STATE.armed:
+            _log("special", self, "__iter__", sys._getframe(1))
+        return (CStr(ch) for ch in str.__iter__(self))
 
     def __str__(self):
+        if STATE.armed:
+            _log("special", self, "__str__", sys._getframe(1))
         return CStr(str.__str__(self))
 
     def __repr__(self):
+        if STATE.armed:
+            _log("special", self, "__repr__", sys._getframe(1))
         return CStr(str.__repr__(self))
 
 
@@ -200,7 +231,15 @@ class CStr(StrMixin, str):
 
 # ---- int ---------------------------------------------------------------------------------------------
 class IntMixin(CanaryBase):
-    pass
+    def __str__(self):
+        if STATE.armed:
+            _log("special", self, "__str__", sys._getframe(1))
+        return CStr(int.__repr__(self))
+
+    def __repr__(self):
+        if STATE.armed:
+            _log("special", self, "__repr__", sys._getframe(1))
+        return CStr(int.__repr__(self))
 
 
 _fill_ns = {}
@@ -218,9 +257,22 @@ class CInt(IntMixin, int):
 class ListMixin(CanaryBase):
     __hash__ = None
 
+    def __iter__(self):
+        if STATE.armed:
+            _log("special", self, "__iter__", sys._getframe(1))
+        return list.__iter__(self)
+
+    def __repr__(self):
+        if STATE.armed:
+            _log("special", self, "__repr__", sys._getframe(1))
+        return CStr("[" + ", ".join(str.__str__(repr(x)) for x in list.__iter__(self)) + "]")
+
+    __str__ = __repr__
+
 
 _fill_ns = {}
-_fill(_fill_ns, list, ["__add__", "__mul__", "__rmul__"])
+_fill(_fill_ns, list, ["__add__", "__mul__", "__rmul__", "__getitem__"])
+_fill_ns.pop("__hash__", None)
 for _k, _v in _fill_ns.items():
     setattr(ListMixin, _k, _v)
 
@@ -244,6 +296,8 @@ class CCallable(CanaryBase):
         return CStr("called")
 
     def __repr__(self):
+        if STATE.armed:
+            _log("special", self, "__repr__", sys._getframe(1))
         return "<CCallable %s calls=%d>" % (object.__getattribute__(self, "label"), object.__getattribute__(self, "calls"))
 
 
@@ -263,8 +317,32 @@ class ObjMixin(CanaryBase):
         return o
 
     def __repr__(self):
+        if STATE.armed:
+            _log("special", self, "__repr__", sys._getframe(1))
         d = object.__getattribute__(self, "__dict__")
         return "<%s %s>" % (type(self).__name__, snapshot(d))
+
+    __str__ = __repr__
+
+    def __eq__(self, other):
+        if STATE.armed:
+            _log("special", self, "__eq__", sys._getframe(1))
+        return self is other
+
+    def __ne__(self, other):
+        if STATE.armed:
+            _log("special", self, "__ne__", sys._getframe(1))
+        return self is not other
+
+    def __hash__(self):
+        if STATE.armed:
+            _log("special", self, "__hash__", sys._getframe(1))
+        return id(self) >> 4
+
+    def __bool__(self):
+        if STATE.armed:
+            _log("special", self, "__bool__", sys._getframe(1))
+        return True
 
 
 class CObj(ObjMixin):
